@@ -9,5 +9,6 @@ PROPERTIES
   T_AtMostOncePerWindow
   T_ForwardAgain
   T_NotRememberedIfNotSent
+  T_MemoryOnlyByRequests
 CONSTRAINT Finished
 CHECK_DEADLOCK FALSE
